@@ -10,7 +10,7 @@ sim P <nP> G <nG> M <m…> MSL <k>
     I <nI> { <v> <period> <values…> }
     R <nR> { calc <v> <period> | add <v> <period> | arm <id> | disarm <id> }
 expr ::= c <k> | v <w> <pt> <0|1> | o1 <o> expr | o2 <o> expr expr | f <id> expr
-pt   ::= same | this_year | first_month | last_month | last_year | off:<n>:<unit>
+pt   ::= same | this_year | first_month | last_month | last_year | off:<n>:<unit> | fx:<period>
 ```
 Answer: `<res>;<res>;…|<known entries>` with res = `ok:<v,…>` | `CYCLE` | `ERR` | `FUEL`, known =
 `<v>@<period>=<v,…>[!]` sorted (`!` = ghost-tainted entry, stripped by the harness before
@@ -50,6 +50,7 @@ def pPT : Parser PTrans
     | "last_year" => some (.lastYear, r)
     | _ => match t.splitOn ":" with
       | ["off", n, u] => do pure (.offset (← n.toInt?) (← DUnit.ofName u), r)
+      | ["fx", q] => do pure (.fixed (← parsePeriod? q), r)
       | _ => none
   | [] => none
 
@@ -225,7 +226,7 @@ def showReads (sys : Sys Period) (s : St Period) : String :=
       else
         let rs := readsOf sys k
         if rs.isEmpty then dedup (k :: seen) r
-        else (s!"{k.1}@{periodKey k.2}", "+".intercalate (rs.map (fun j => s!"{j.1}@{periodKey j.2}"))) :: dedup (k :: seen) r
+        else (s!"{k.1}@{periodKey k.2}", "+".intercalate (rs.map (fun j => let j' := sys.slot j; s!"{j'.1}@{periodKey j'.2}"))) :: dedup (k :: seen) r
   let sorted := (dedup [] s.cache).toArray.qsort (fun a b => a.1 < b.1) |>.toList
   "T:" ++ ";".intercalate (sorted.map (fun e => e.1 ++ ">" ++ e.2)) |>.replace ";" "&"
 
